@@ -297,6 +297,33 @@ DES_NAMES = {"str": "DesStr", "decimal_deserializer": "DesDecimal", "timedelta_d
              "bytes_deserializer": "DesBytes", "bytearray_deserializer": "DesBytearray", "range_deserializer": "DesRange"}
 
 
+def _default_catches_overflow(tree):
+    """register_type's default deserializer_exceptions: must list ValueError, TypeError and AttributeError (the model
+    turns those into a rejection); -> whether an OverflowError (an ArithmeticError) is caught as well."""
+    fn = [n for n in tree.body if isinstance(n, ast.FunctionDef) and n.name == "register_type"]
+    if len(fn) != 1:
+        raise TieBroken("register_type not found")
+    a = fn[0].args
+    params = a.posonlyargs + a.args
+    defaults = dict(zip([p.arg for p in params][len(params) - len(a.defaults):], a.defaults))
+    d = defaults.get("deserializer_exceptions")
+    if d is None:
+        raise TieBroken("register_type: no default for deserializer_exceptions")
+    elts = d.elts if isinstance(d, ast.Tuple) else [d]
+    if not all(isinstance(e, ast.Name) for e in elts):
+        raise TieBroken("register_type: deserializer_exceptions default is not a tuple of names")
+    names = {e.id for e in elts}
+    if not ({"ValueError", "TypeError", "AttributeError"} <= names or names & {"Exception", "BaseException"}):
+        raise TieBroken("register_type: default deserializer_exceptions no longer lists ValueError/TypeError/AttributeError")
+    # RegisteredType.deserializer must still be the try/except over self.deserializer_exceptions
+    cls = [n for n in tree.body if isinstance(n, ast.ClassDef) and n.name == "RegisteredType"]
+    meth = [m for c in cls for m in c.body if isinstance(m, ast.FunctionDef) and m.name == "deserializer"]
+    if len(meth) != 1 or not any(isinstance(h, ast.ExceptHandler) and h.type is not None
+                                 and ast.unparse(h.type) == "self.deserializer_exceptions" for h in ast.walk(meth[0])):
+        raise TieBroken("RegisteredType.deserializer no longer catches self.deserializer_exceptions")
+    return bool(names & {"ArithmeticError", "OverflowError", "Exception", "BaseException"})
+
+
 def _string_key_has_flags(tree):
     """register_key of restricted_string_type: (expression, str) -> False, (expression, regex.flags, str) -> True;
     `expression` must be "matching " + regex.pattern. Anything else fails closed."""
@@ -328,6 +355,9 @@ def translate_registry(tree):
         kw = {k.arg: k.value for k in call.keywords}
         if None in kw:
             raise TieBroken("registration with **kwargs: " + ast.unparse(call))
+        if "deserializer_exceptions" in kw or len(pos) > 3:
+            raise TieBroken("registration with its own deserializer_exceptions (the model uses the default): "
+                            + ast.unparse(call)[:120])
         t = pos[0]
         tname = t.value if isinstance(t, ast.Constant) and isinstance(t.value, str) else ast.unparse(subst.get(
             t.id, t) if isinstance(t, ast.Name) else t)
@@ -394,6 +424,7 @@ def translate():
     _write_if_changed(os.path.join(gen, "C20Regexes.v"), "\n".join(lines) + "\n")
     rtext, rrows = translate_registry(tree)
     rtext += "Definition string_key_has_flags : bool := %s.\n" % g_bool(_string_key_has_flags(tree))
+    rtext += "Definition deserializer_catches_overflow : bool := %s.\n" % g_bool(_default_catches_overflow(tree))
     _write_if_changed(os.path.join(gen, "C20Registry.v"), rtext)
     # build the judge on its own first: it does not depend on Proofs/, so the correspondence can still
     # look for a failing input when a proof about the regenerated tables no longer compiles
